@@ -531,19 +531,23 @@ impl<'r, 'a> Collector<'r, 'a> {
         let (iter, hdr, bs, be) = self.rw.loop_parts(&key);
         let wrap = self.rw.loops.iter().find(|l| l.key == key).and_then(|l| l.wrap.clone());
         let bind = self.rw.loops.iter().find(|l| l.key == key).and_then(|l| l.bind.clone());
-        if let (Some(w), Some(b), Some(e), Some(fs)) = (&wrap, &bind, iter_expr, for_start) {
+        if let (Some(b), Some(e), Some(fs)) = (&bind, iter_expr, for_start) {
             // R8 with a name: `let B = W(&(EXPR)); let ghost B_g = B@; for .. in B`
+            // (without wrap=: `let B = EXPR;` -- EXPR evaluated once, immediately before the loop, as by `for`)
             let plain = match e {
                 syn::Expr::Path(_) => true,
                 syn::Expr::Reference(r) => matches!(&*r.expr, syn::Expr::Path(_)),
+                syn::Expr::MethodCall(m) => m.args.is_empty() && matches!(&*m.receiver, syn::Expr::Path(_)),
                 _ => false,
             };
             if !plain {
-                die("unsupported", &format!("{}: bind= side condition: the iterated expression of loop {key} is not a plain variable", self.rw.fn_path));
+                die("unsupported", &format!("{}: bind= side condition: the iterated expression of loop {key} is not a plain variable (or a parameterless method call on one)", self.rw.fn_path));
             }
             let r = rng(e);
             let et = self.rw.text(e).to_string();
-            self.edits.push(Edit { range: fs..fs, text: format!("let {b} = {w}(&({et})); let ghost {b}_g = {b}@;\n"), prio: -7 });
+            let init = match &wrap { Some(w) => format!("{w}(&({et}))"), None => et.clone() };
+            let w = wrap.clone().unwrap_or_else(|| "the iterated expression".to_string());
+            self.edits.push(Edit { range: fs..fs, text: format!("let {b} = {init}; let ghost {b}_g = {b}@;\n"), prio: -7 });
             self.edits.push(Edit { range: r.clone(), text: b.clone(), prio: 0 });
             self.rw.log.push(format!("R8 loop {key}: iterate over {w}(..) bound to {b}"));
             if !iter.is_empty() {
